@@ -7,8 +7,8 @@ import Knut.Properties.C03Window
 # C03 — the cells of the valued balance report are mark-to-market (command level)
 
 Everything from the directives to the CELLS of the table `knut balance -v V` renders, for cumulative reports with
-per-account rows (no `-m`/`--remap`/filters/`-s`/`--diff`), every interval, every window (`--from`/`--to`/`--last`),
-closing on or off:
+per-account rows (`PlainFlags`: no `-m`/`--remap`/filters/`-s`/`--diff`), every interval, every window
+(`--from`/`--to`/`--last`), closing on or off:
 
 * `C03_account_window` (pipeline level) – for a plain valued configuration over a date-sorted day list, the inserts on an
   asset/liability account aligned to column dates `≤ D` total `Spec.mtm … D − Spec.mtm … (start − 1)`, both of which
@@ -16,11 +16,18 @@ closing on or off:
 * **`C03_command_cell`** – the table the command renders contains the account's row — name cell indented two blanks per
   level, one cell per column — and the cell of the column with period end `D` is within `Spec.stepBound/10⁸` of
   `Spec.mtm V days a D − Spec.mtm V days a (window start − 1)`: the exact Σ quantity × latest normalised price at `D`,
-  minus the same on the eve of the window (0 when nothing precedes the window: `C03_command_cell_abs` is the property's
-  sentence);
+  minus the same on the eve of the window; `days` are the journal's own days `(Builder.ofList ds).build`
+  (`C03_command_cell_built`: the same over the day list the command builds);
+* `C03_command_cell_abs` – nothing held on the eve of the window: the cell is `Spec.mtm … D` up to the bound (the
+  property's sentence);
 * `C03_step_bound_closed_form` – `Spec.stepBound` is an explicit function of the journal: per commodity of the account
   other than `V`, the non-zero bookings on the position dated inside `(F, D]` plus the days in `(F, D]` that carry a
-  price declaration; `C03_trace_steps_le` – the trace's own step count is at most that.
+  price declaration; `C03_window_steps_le` / `C03_run_window_explicit` – the trace's own step count (the bound of
+  `C03_run_window`) is at most that.
+
+Helper modules: `Proofs/MTMSpec.lean` (the pipeline state IS `Spec.qtyAt` / `Spec.pricesAt`; an open position has a
+price), `Proofs/MTMAccount.lean` (step bound, valuation commodity), `Proofs/MTMCum.lean` (sum over the commodities of an
+account), `Proofs/MTMRender.lean` (the row of an account in `BalanceReport.table`), `Proofs/MTMEmpty.lean`.
 -/
 namespace Knut.C03
 open Knut Knut.Dec Knut.MTM Knut.LedgerCommand
